@@ -71,13 +71,32 @@ Definition real_matches (r : real) (d : option pulse) : bool :=
   | _, _ => false
   end.
 
-(* the program of pad_to(target): the original pulse (denoted under rhoD) followed by the constant piece pad_to builds from
-   final_values and target - duration, both evaluated by the code under the GIVEN parameters rho.  For rho = rhoD this is
-   `denote (pad_to p target) rho` up to `++ []`. *)
-Definition pad_den (p : pt) (rho rhoD : env) (target : expr) : option pulse :=
-  match denote p rhoD, denote (Const (ESub target (duration_expr p)) (final_expr p)) rho with
-  | Some a, Some b => Some (a ++ b)
-  | _, _ => None
+(* the program of pad_to(tq): the original pulse (denoted under rhoD) followed by the constant piece pad_to builds from
+   final_values and tq - duration, both evaluated by the code under the GIVEN parameters rho.  Strict cases: the model's
+   Const piece; for rho = rhoD this is `denote (pad_to p (EC tq)) rho` up to `++ []`.  Malformed stream: where the model's
+   strict evaluation of duration / final value fails although sympy's simplifier has removed the missing symbol (0 * U), the
+   code's own evaluated duration / final value is taken (same convention as oq_sub), so the padded program is still compared:
+   it must last tq and hold these values *)
+Definition sub_q (m r : option Q) : option Q := match m with Some _ => m | None => r end.
+Definition pad_den (strict : bool) (p : pt) (rho rhoD : env) (tq : Q) (sdur : option Q) (obs : list chobs) : option pulse :=
+  match denote p rhoD with
+  | None => None
+  | Some a =>
+      if strict then
+        match denote (Const (ESub (EC tq) (duration_expr p)) (final_expr p)) rho with Some b => Some (a ++ b) | None => None end
+      else
+        match sub_q (eval rho (duration_expr p)) sdur,
+              opt_all (map (fun kv => option_map (fun q => (fst kv, q))
+                                        (sub_q (eval rho (snd kv))
+                                               (match find (fun o => N.eqb (co_chan o) (fst kv)) obs with
+                                                | Some o => co_sfin o | None => None end)))
+                           (final_expr p)) with
+        | Some d, Some vs =>
+            let dd := tq - d in
+            if Qle_bool dd 0 then (if Qle_bool 0 dd then Some a else None)
+            else Some (a ++ [(dd, map (fun kv => (fst kv, FSegs [(dd, [snd kv])] (snd kv))) vs)])
+        | _, _ => None
+        end
   end.
 
 (* rho: the given parameters (symbolic side); rhoD: the parameters the denotation is evaluated under (= rho except for CLazy) *)
@@ -111,7 +130,7 @@ Definition corr_pulse (rho rhoD : env) (p : pt) (sdur : option Q) (r : real) (ob
              && match padded with
                 | ROk pd =>
                     (* the model's pad_to denotes the original pulse followed by one constant piece *)
-                    match pad_den p rho rhoD (EC (total pcs + padlen)) with
+                    match pad_den strict p rho rhoD (total pcs + padlen) sdur obs with
                     | Some ppcs =>
                         Qeq_bool pd (total ppcs)
                         && forallb (fun o => match p_end ppcs (co_chan o) with
@@ -120,7 +139,7 @@ Definition corr_pulse (rho rhoD : env) (p : pt) (sdur : option Q) (r : real) (ob
                                              end) obs
                     | None => false
                     end
-                | RErr => match pad_den p rho rhoD (EC (total pcs + padlen)) with None => true | Some _ => false end
+                | RErr => match pad_den strict p rho rhoD (total pcs + padlen) sdur obs with None => true | Some _ => false end
                 | RNone => false
                 end
          | _, _ => true
